@@ -179,7 +179,10 @@ impl<const N: usize> ClientContext<N> {
 
         fn try_from(value: &ServerConfig<SslConfig>) -> (r: Result<Self, anyhow::Error>)
             requires 16 <= N <= 32,
-            ensures
+                //#C16
+                // the key size the context is built with is the one the cipher name stands for
+                !(value.cipher is Unknown), N == key_len_of(value.cipher),
+            ensures r matches Ok(c) ==> c.0.wf(),
                 //#C16 C03
                 // the cipher name selects the credential format: base64 key list for 2022-blake3-*, EVP_BytesToKey of the password otherwise
                 r matches Ok(c) ==> c.0.kind == value.cipher && cred_ok(value.cipher, sbytes(value.password), N as int, c.0.key@, arrs(c.0.identity_keys@)),
